@@ -323,6 +323,11 @@ fn main() {
     }
     static_first_cells(&mut stats, ctx);
     exclusive_receiver_cells(&mut stats, ctx);
+    // the mock never fabricates a return value: an exhausted single-use response of a composite
+    // type is refused, not replaced by an empty variant
+    if ctx.variant == "std" {
+        vh::composite::cells(ctx, &mut stats);
+    }
     guard(&stats, 8, true);
     let cov = coverage(
         ctx,
